@@ -17,6 +17,45 @@ CLAIMS = {
    ref="§5 C19"),
 }
 
+CLAIMS.update({
+ "C03": dict(
+   text="Codec layer only: the local zcash_encoding CompactSize reader/writer is decided for ALL byte strings of length 0..=9 and ALL u64 values (no panic, bytes consumed, every non-canonical prefix and over-limit value rejected, accepted input re-encodes to the consumed bytes); Vector<u8>/Optional<u8> for <=3 elements; amount encodings are decided under C09. Bounded model checking covers the complete input space of these kernels.",
+   note="Outside the claim (stated in DESIGN): transaction/bundle/header structure (read_v4/v5/v6, Sapling/Orchard/Ironwood bundles need curve-point decoding), TxVersion, TxIn/TxOut/Script, BlockHeader hashing. zcash_primitives links the published zcash_encoding 0.4 from the registry, not the local 0.5 harnessed here.",
+   ref="§5 C03"),
+ "C07": dict(
+   text="ZIP 317 fee_required equals 5000*max(2, logical actions) computed in 128-bit arithmetic for all sizes/counts in the bounds; SingleOutputChangeStrategy::compute_balance on a Sapling 1-in/1-out transaction: for ALL values, dust policies/thresholds, target and anchor heights the solver shows conservation (inputs = outputs + change + fee), fee = ZIP 317 fee of the final shape unless dust is folded in, the dust rule, and that InsufficientFunds is honest.",
+   note="Bounds: 2 transparent inputs/outputs with sizes <= 2^20 and counts <= 2^40 for the formula; one pool combination (Sapling 1x1, single-output strategy, no memo, no ephemeral balance) for the balance. Other pool combinations, the multi-output strategy and the Orchard turnstile rule are thorough-tier/outside (see DESIGN).",
+   ref="§5 C07"),
+ "C10": dict(
+   text="F4Jumble is shown to be a length-preserving bijection (inv(jumble(m)) = m and jumble(inv(m)) = m) for EVERY message of each instantiated length, with BLAKE2b abstracted by a deterministic mixing function (a Feistel network is invertible for any round function, so the solver decides the structure: split point, round order, G block index, tail xor); invalid lengths are rejected without touching the buffer.",
+   note="Lengths 48 and 129 in the quick tier plus one seeded member of {63,65,128}; 193 thorough. BLAKE2b output values, the Bech32/Bech32m/Base58Check string layer, ZcashAddress parsing and the ZIP 316 container rules are outside the claim (string code is out of CBMC's reach; container harness not built).",
+   ref="§5 C10"),
+ "C12": dict(
+   text="Narrow: memo bytes survive unchanged. MemoBytes::from_bytes (accept iff <= 512 bytes, zero padding, as_slice = content without trailing zeros) and Memo <-> MemoBytes conversion for every 512-byte array of the non-text classes and for all text memos whose content is <= 6 bytes against an independent UTF-8 validator.",
+   note="The ZIP 321 URI grammar, amount<->decimal conversion, percent-encoding, index and duplicate rules (format!/nom over &str) are outside the claim: CBMC did not get through format! of a 3-digit number in 11 minutes (DESIGN §3).",
+   ref="§5 C12"),
+ "C15": dict(
+   text="One insertion step of the scan-queue algebra is decided for ALL ranges over u32 heights, all 7x7 priorities and both force flags: the result of the leaf-level insert is a sorted, gap-free, merged partition of the hull whose priority at EVERY height equals the documented dominance rule applied pointwise; dominance() and join_nonoverlapping() likewise. One step from an arbitrary valid range makes the Rust part inductive over insertion histories.",
+   note="Through the cfg(zcash_librustzcash_verif) hook spanning_tree::verif_hooks. Outside the claim: the SpanningTree recursion over >1 leaf (thorough-tier harness for 2 leaves), the scan_queue SQL (replace_queue_entries, scan_complete, update_chain_tip, suggest_scan_ranges) and termination of syncing.",
+   ref="§5 C15"),
+ "C16": dict(
+   text="plan_denominations with caps 1 and 2 for ALL balances and buffers in [0,MAX_MONEY], symbolic note count, and an oracle that returns a fresh arbitrary answer on every call: canonical (19-entry table), non-increasing, <= cap, prefix of the canonical split, exact conservation, reserved fees = accepted answer x fee, change bound, generator never consulted. is_canonical_denomination for all Zatoshis and largest_one_two_five for all hi <= 10^12 against the table.",
+   note="Preparation fee bounded by 10^6 zatoshi in the quick tier (bounds the step-down loop; checked by unwinding assertions); caps 3..64 are outside the quick claim (cap 3 thorough). Uses the verif hook for unconstrained_split.",
+   ref="§5 C16"),
+ "C17": dict(
+   text="Every generator word is kani::any(), so 'for every random stream' is the query: delays <= cap for any logarithm value; schedules non-decreasing/saturating with canonical expiries; closed form of expiry_height for all u32; shuffles are permutations (n<=4, Lemire rejection un-stubbed); anchor draws on the ZIP 318 grid and others: Some => on grid, above activation, >= funding, below the most recent boundary, age <= 4, None iff no candidate; wake-up schedules for <=2 transfers: exact cover, windows, strict order, brute-force minimality; classification monotone over the whole evidence lattice.",
+   note="Streams whose rejection loops end within the stated draw budget (2 words = 128 coin flips for anchors). libm::log stubbed by an arbitrary value in [-37,0]; the private gen_index stubbed by its contract in the wake-up harnesses only. Bucket intervals are instantiated concretely (a symbolic modulus did not finish).",
+   ref="§5 C17"),
+ "C18": dict(
+   text="One inductive step from an ARBITRARY well-formed 2-transaction state (all lifecycle states, heights, expiries, marks, statuses symbolic): the step decision offers Broadcast only for a Proved, due, unexpired, unmarked, unreported row whose dependencies are mined, never for a terminal migration, and never withholds an eligible row; every public mutator moves rows only forward, truncate_to_height un-mines exactly the rows above the height, policy-terminal statuses are never left, Complete iff all mined.",
+   note="2 transactions; the drive loop advance_migration, record_satisfiability, shift_schedule, the SQLite save/load round trip and 'one non-terminal migration per account' are outside the claim. Representation invariant (unique ids, deps refer to earlier rows, in-flight rows carry their txid) is assumed of the pre-state and asserted of the post-state.",
+   ref="§5 C18"),
+ "C20": dict(
+   text="Node record codecs V1/V2/V3 with EVERY field symbolic (all counter values, all roots, all work values): write then read returns every field, record length exact, unrepresentable height ranges rejected. V1 combine: every field rule plus exact hash framing (write(left)||write(right) under ZcashHistory||branch id), hash abstracted.",
+   note="blake2b_personal is stubbed (records its arguments, returns arbitrary bytes): nothing is claimed about BLAKE2b. Tree::append_leaf/truncate_leaf against a from-scratch MMR (harnesses c20_mmr_ops_*) did not get through symex (BTreeMap-backed store) and are NOT part of the claim unless listed as discharged in the evidence.",
+   ref="§5 C20"),
+})
+
 NOT_APPLICABLE = {
  "C01": "ledger state and all its transitions are SQL executed by SQLite via FFI; symbolic execution of the Rust code cannot see them and no encodable kernel implies the property",
  "C02": "atomicity/crash consistency/snapshot isolation are provided by SQLite's transaction and journal machinery (C code behind FFI, crash points, concurrent connections): out of reach of Kani/CBMC",
